@@ -83,11 +83,49 @@ enum Outcome {
     Unparsable(String),
 }
 
+/// What a `macro_rules!` macro hands to the derive when an attribute value comes from a `$v:literal` / `$v:expr` fragment:
+/// the literal wrapped in a group without delimiters. Source text prefixed with `//@fragments` gets every literal inside its
+/// `#[..]` attributes wrapped that way.
+fn literals_as_fragments(ts: TokenStream, in_attr: bool) -> TokenStream {
+    use proc_macro2::{Delimiter, Group, TokenTree};
+    let mut out = Vec::new();
+    let mut after_pound = false;
+    for tt in ts {
+        match tt {
+            TokenTree::Group(g) => {
+                let inside_attr = in_attr || (after_pound && g.delimiter() == Delimiter::Bracket);
+                let mut ng = Group::new(g.delimiter(), literals_as_fragments(g.stream(), inside_attr));
+                ng.set_span(g.span());
+                out.push(TokenTree::Group(ng));
+                after_pound = false;
+            }
+            TokenTree::Literal(l) if in_attr => {
+                out.push(TokenTree::Group(Group::new(Delimiter::None, TokenStream::from(TokenTree::Literal(l)))));
+                after_pound = false;
+            }
+            TokenTree::Punct(p) => {
+                after_pound = p.as_char() == '#';
+                out.push(TokenTree::Punct(p));
+            }
+            other => {
+                after_pound = false;
+                out.push(other);
+            }
+        }
+    }
+    out.into_iter().collect()
+}
+
 fn expand(src: &str) -> Outcome {
+    let (src, fragments) = match src.strip_prefix("//@fragments\n") {
+        Some(rest) => (rest, true),
+        None => (src, false),
+    };
     let ts = match TokenStream::from_str(src) {
         Ok(t) => t,
         Err(e) => return Outcome::Unparsable(e.to_string()),
     };
+    let ts = if fragments { literals_as_fragments(ts, false) } else { ts };
     match catch_unwind(AssertUnwindSafe(|| crate::verif_expand(ts))) {
         Ok(Ok(t)) => Outcome::Tokens(t),
         Ok(Err(e)) => Outcome::Error(e.to_string()),
@@ -488,12 +526,21 @@ fn run_c09_sites(h: &BTreeMap<String, String>, out: &mut impl std::io::Write) {
     for id in &idents {
         let plain = id.trim_start_matches("r#");
         for (rname, _infl, rule) in RULES {
-            let sites: [(&str, String, bool); 4] = [
+            let mut sites: Vec<(&str, String, bool)> = vec![
                 ("struct-rename_all", format!("#[ts(rename_all = \"{rname}\")] struct S {{ {id}: i32 }}"), true),
                 ("enum-rename_all", format!("#[ts(rename_all = \"{rname}\")] enum E {{ {id}, Other(i32) }}"), false),
                 ("variant-rename_all", format!("enum E {{ #[ts(rename_all = \"{rname}\")] V {{ {id}: i32 }} }}"), true),
                 ("enum-rename_all_fields", format!("#[ts(rename_all_fields = \"{rname}\")] enum E {{ V {{ {id}: i32 }}, W }}"), true),
             ];
+            if id.len() != 2 {
+                // the serde spelling, written behind other serde keys the way real code has it
+                sites.extend([
+                    ("struct-serde-list", format!("#[serde(transparent, rename_all = \"{rname}\")] struct S {{ {id}: i32 }}"), true),
+                    ("enum-serde-list", format!("#[serde(deny_unknown_fields, rename_all = \"{rname}\", tag = \"t\")] enum E {{ {id}, Other {{ z: i32 }} }}"), false),
+                    ("variant-serde-list", format!("enum E {{ #[serde(skip_deserializing, rename_all = \"{rname}\")] V {{ {id}: i32 }} }}"), true),
+                    ("enum-serde-fields-list", format!("#[serde(expecting = \"x\", deny_unknown_fields, rename_all_fields = \"{rname}\")] enum E {{ V {{ {id}: i32 }}, W }}"), true),
+                ]);
+            }
             for (site, src, is_field) in sites {
                 let expect = catch_unwind(AssertUnwindSafe(|| {
                     if is_field {
